@@ -22,4 +22,10 @@ PROPS = {
         "quick": {"cases": 8000, "secs": 45, "min_distinct": 30000},
         "thorough": {"cases": 300000, "secs": 900, "min_distinct": 1000000},
     },
+    "C03": {
+        "rule": "case = random schema (namespaces, common types, optional attributes, nested records, sets, tags, memberOf cycles between types, enums, action groups, per-action contexts) + one request environment + a type-directed policy pinned to that environment (guards `has`/`hasTag` in the documented shapes; 30% of cases run the generator with a knob that omits guards or mistypes operands); validated strict and permissive; fault-free programs must be accepted (non-vacuity, frozen family), strict-accepted => permissive-accepted; each strictly accepted policy is evaluated on 8 (20 thorough) conformant worlds accepted by the library's own request/entity validation: no type / missing-attribute / unknown-function error, impossible-or-irrelevant policies never satisfied, and every value in the evaluator trace of the erased typed AST inhabits the annotated type; non-trivial = accepted (policy, env) evaluated on >=1 accepted world; distinct = hash of (schema, policy, env)",
+        "assumptions": ["worlds are conformant by construction (schema.rs WorldGen) and additionally must pass the library's own Request::new / Entities::from_entities schema validation, as the property's precondition says", "non-vacuity is judged on the fixed family of program shapes produced by schema.rs TypedGen with all guards in place"],
+        "quick": {"cases": 2500, "secs": 45, "min_distinct": 10000, "min_counters": {"trace_events_checked": 100000, "worlds_evaluated": 20000}},
+        "thorough": {"cases": 60000, "secs": 900, "min_distinct": 300000},
+    },
 }
